@@ -389,14 +389,32 @@ def main():
     job = json.load(sys.stdin)
     repo = os.environ.get("VERIF_REPO", "/repo")
     results = []
+    import signal
+
+    class CaseTimeout(BaseException):
+        pass
+
+    def on_alarm(signum, frame):
+        raise CaseTimeout()
+
+    signal.signal(signal.SIGALRM, on_alarm)
+    limit = int(job.get("case_timeout", 300))
     for case in job["cases"]:
         try:
+            signal.alarm(limit)
             if case["kind"] == "sim":
                 results.append(run_sim_case(case["sim"], job["twin"], repo))
             else:
                 results.append(run_sched_case(case, job["twin"], repo))
+        except CaseTimeout:
+            # a scheduler call that does not return (both twins behave alike): recorded, compared like an error
+            sys.setprofile(None)
+            results.append(dict(trace=None, table=None, error="Timeout: case did not finish within %d s" % limit,
+                                consumed=[]))
         except Exception as e:   # harness trouble, reported as such
             results.append(dict(harness_error="%s: %s" % (type(e).__name__, str(e)[:300])))
+        finally:
+            signal.alarm(0)
     sys.stdout.write("\n@@C11@@" + json.dumps(dict(results=results, hashseed=os.environ.get("PYTHONHASHSEED"))) + "\n")
 
 
